@@ -480,6 +480,7 @@ impl<T: Elem + SatisfyTraits<Tr>, M: MX, Tr: TrX + ?Sized> World<T, M, Tr> {
             Edge::SpliceOverflow(api, o) => self.do_range_overflow(api, o, true, out),
             Edge::Lazy { src, j, depth, uses, how, copies } => self.do_lazy(src, j, depth, uses, how, copies, out),
             Edge::ForgetHandle { op, idx, follow } => self.do_forget_handle(op, ix(idx), follow, out),
+            Edge::ForgetRangeTyped { splice, a, b, pat, rn, follow } => self.do_forget_range_typed(splice, ix(a), ix(b), pat, rn as usize, follow, out),
             Edge::ForgetRange { splice, a, b, pat, stage, rn, follow } => self.do_forget_range(splice, ix(a), ix(b), pat, stage, rn as usize, follow, out),
             Edge::WriteRead { w: wk, r, i } => self.do_write_read(wk, r, ix(i), out),
             Edge::Swap { lhs, rhs, i } => self.do_swap(lhs, rhs, ix(i), out),
